@@ -1,22 +1,3 @@
 #!/bin/sh
-# run_lockfree.sh <repo> <workdir> -- regenerate LockfreeGen.v from <repo>/src/arenas/{atomic_bucket,lockfree}.rs and check
-# LockfreeGenProofs.v and AtomicBucketGenProofs.v against them (LockfreeGen.v, AtomicBucketGen.v).  Works in <workdir> (created; the hand-written files are COPIED there).
-# Exit 0 iff the translator succeeds and every theorem is proved and closed.  One line per theorem.
-set -u
-HERE=$(cd "$(dirname "$0")" && pwd)
-REPO=${1:?usage: run_lockfree.sh <repo> <workdir>}
-WORK=${2:?usage: run_lockfree.sh <repo> <workdir>}
-COQ_LASSO=${LASSO_COQ_DIR:-/verif/coq}
-mkdir -p "$WORK" || exit 2
-cp "$HERE/GenPrelude.v" "$HERE/GenIR.v" "$HERE/GenTactics.v" "$HERE/GenIRLf.v" "$HERE/GenTacticsLf.v" "$HERE/GenIRAb.v" "$HERE/LockfreeGenProofs.v" "$HERE/AtomicBucketGenProofs.v" "$WORK/" || exit 2
-rm -f "$WORK/LockfreeGen.v" "$WORK/AtomicBucketGen.v" "$WORK"/LockfreeGen.vo "$WORK"/AtomicBucketGen.vo "$WORK"/LockfreeGenProofs.vo "$WORK"/AtomicBucketGenProofs.vo
-python3 "$HERE/rust2coq.py" --repo "$REPO" --out "$WORK" --only lockfree || { echo "run_lockfree: TRANSLATOR LOST"; exit 1; }
-cd "$WORK" || exit 2
-for f in GenPrelude GenIR GenTactics GenIRLf GenTacticsLf GenIRAb LockfreeGen AtomicBucketGen; do
-  timeout 300 coqc -Q "$COQ_LASSO" Lasso -Q . LassoGen $f.v || { echo "run_lockfree: $f.v does not compile"; exit 1; }
-done
-python3 "$HERE/check_thms.py" "$WORK" LockfreeGenProofs.v
-rc=$?
-python3 "$HERE/check_thms.py" "$WORK" AtomicBucketGenProofs.v || rc=1
-[ $rc -eq 0 ] && echo "run_lockfree: OK" || echo "run_lockfree: FAIL"
-exit $rc
+# run_lockfree.sh <repo> <workdir> -- kept for compatibility: `prop.sh lockfree <repo> <workdir>` (exit 0 iff everything is proved)
+exec "$(dirname "$0")/prop.sh" lockfree "$@"
